@@ -106,9 +106,11 @@ func Compile(expr string) (*Expr, error) {
 		node: node,
 	}
 
+	simLockWait(&globalRegistryMutex, false)
 	globalRegistryMutex.RLock()
 	e.updateRegistry(globalRegistry)
 	globalRegistryMutex.RUnlock()
+	simYield("compile.unlocked", nil)
 
 	return e, nil
 }
@@ -221,6 +223,7 @@ func (e *Expr) String() string {
 func (e *Expr) updateRegistry(values map[string]reflect.Value) {
 
 	for name, v := range values {
+		simYield("registry.copy", nil)
 		if e.registry == nil {
 			e.registry = make(map[string]reflect.Value, len(values))
 		}
@@ -230,7 +233,9 @@ func (e *Expr) updateRegistry(values map[string]reflect.Value) {
 
 func (e *Expr) newEnv(input reflect.Value) *environment {
 
+	simYield("newenv.clock", nil)
 	tc := timeCallables(time.Now())
+	simYield("newenv.clocked", nil)
 
 	env := newEnvironment(baseEnv, len(tc)+len(e.registry)+1)
 
@@ -340,9 +345,11 @@ func processVars(vars map[string]interface{}) (map[string]reflect.Value, error) 
 
 func updateGlobalRegistry(values map[string]reflect.Value) {
 
+	simLockWait(&globalRegistryMutex, true)
 	globalRegistryMutex.Lock()
 
 	for name, v := range values {
+		simYield("registry.write", nil)
 		if globalRegistry == nil {
 			globalRegistry = make(map[string]reflect.Value, len(values))
 		}
@@ -350,6 +357,7 @@ func updateGlobalRegistry(values map[string]reflect.Value) {
 	}
 
 	globalRegistryMutex.Unlock()
+	simYield("register.unlocked", nil)
 }
 
 func validName(s string) bool {
